@@ -220,7 +220,7 @@ func main() {
 			t := t
 			add(&item{name: "tpl:" + t.Name, stream: "template", tpl: &t, defs: t.Defs, build: t.Build, raw: t.Raw})
 		}
-		nChain, nProg, nMal, nDefs := c.Scale(500, 12000), c.Scale(350, 8000), c.Scale(60, 1500), c.Scale(60, 1500)
+		nChain, nProg, nMal, nDefs := c.Scale(320, 12000), c.Scale(240, 8000), c.Scale(40, 1500), c.Scale(40, 1500)
 		for i := 0; i < nChain; i++ {
 			g := aspgen.NewGen(c.Rng.Fork())
 			g.AllowDiv = i%25 == 0
